@@ -254,7 +254,9 @@ func RunWorker(t *testing.T) {
 				seed = fs
 			}
 		}
+		tRun := time.Now()
 		r := execRun(t, sc, tier, seed, index, nil)
+		slow := time.Since(tRun) > 3*time.Second // too expensive to re-execute hundreds of times
 		wo.Runs++
 		wo.SimNS += r.SimNS
 		wo.Steps += int64(r.Steps)
@@ -279,7 +281,7 @@ func RunWorker(t *testing.T) {
 			wo.Exhausted = true
 		}
 		// determinism sample: same seed again must give the same event log
-		if (i-start) < 3 || (i-start)%400 == 0 {
+		if !slow && ((i-start) < 3 || (i-start)%400 == 0) {
 			r2 := execRun(t, sc, tier, seed, index, nil)
 			wo.DetChecked++
 			if r2.LogHash != r.LogHash || failSigs(r2) != failSigs(r) || r2.Steps != r.Steps {
@@ -301,7 +303,7 @@ func RunWorker(t *testing.T) {
 			if g == nil {
 				g = &failGroup{Sig: f.Sig, Clause: f.Clause, Known: known[f.Sig]}
 				wo.Failures[f.Sig] = g
-				if !g.Known && len(wo.Failures) <= 6 {
+				if !g.Known && len(wo.Failures) <= 6 && !slow {
 					g.Replay = minimise(t, sc, tier, index, r, f.Sig)
 				} else {
 					g.Replay = &Replay{Property: prop, Tier: tier, Seed: seed, Index: index, Clause: f.Clause, Sig: f.Sig, Msg: f.Msg, LogHash: r.LogHash, Desc: r.Desc, Trace: r.Trace, Fired: r.Fired}
